@@ -9,6 +9,6 @@ if [ ! -d "$WT" ]; then git -C /repo worktree add -q --detach "$WT" HEAD || exit
 git -C "$WT" checkout -q --detach "$(git -C /repo rev-parse HEAD)" 2>/dev/null
 git -C "$WT" checkout -q -- . 
 git -C "$WT" apply $REV "$P" || { echo "patch does not apply"; exit 9; }
-PYVC_REPO="$WT" "$@"; rc=$?
+PYVC_REPO="$WT" PYVC_EVIDENCE_DIR=/tmp/wt/evidence_mt "$@"; rc=$?
 git -C "$WT" checkout -q -- .
 exit $rc
